@@ -374,7 +374,9 @@ theorem window_pad (cur c : Nat) (W : List Bool) (hc : c ≤ 8) (hl : W.length =
 
 /-! ### Simulation -/
 
-abbrev tbl : Nat := rootTable.tbl
+@[irreducible] def tbl : Nat := rootTable.tbl
+
+theorem tbl_eq : tbl = rootTable.tbl := by unfold tbl; rfl
 
 /-- Go state `st` stands for: bit-level decoder at tree node `t` with `pend` read since the last
 symbol, output `st.out`, and the look-ahead bits `W` (the low `cbits` bits of `cur`) still to walk. -/
@@ -391,7 +393,7 @@ structure Inv (st : DState) (t : Trie) (pend W : List Bool) : Prop where
 theorem inv_root (cur c : Nat) (out : List Nat) (W : List Bool) (hl : W.length = c)
     (hw : cur % 2 ^ c = bitsToNat W) (h64 : cur < 2 ^ 64) :
     Inv { n := 0, cur := cur, cbits := c, sbits := c, out := out } trie [] W where
-  rel := ⟨5, Nat.le_refl 5, rootTable_ok.1⟩
+  rel := ⟨5, Nat.le_refl 5, by rw [tbl_eq]; exact rootTable_ok.1⟩
   node := rootTable_ok.2.2.2
   nz := rootTable_ok.2.2.1
   wlen := hl
@@ -426,9 +428,9 @@ theorem drain_sim (m : Nat) (rest : List Bool) : ∀ (fuel : Nat) (st : DState) 
     simp only [drain]
     by_cases hc : st.cbits ≥ 8
     · simp only [hc, ↓reduceIte]
-      obtain ⟨hidx, hbits⟩ := window_idx st.cur st.cbits W hc inv.wlen inv.win
-      have hi : (st.cur >>> (st.cbits - 8)) % 256 < 256 := Nat.mod_lt _ (by omega)
-      obtain ⟨f, hfb, hck⟩ := inv.rel
+      have hbits := (window_idx st.cur st.cbits W hc inv.wlen inv.win).2
+      have hi : (st.cur >>> (st.cbits - 8)) % 256 < 256 := Nat.mod_lt _ (by decide)
+      have ⟨f, hfb, hck⟩ := inv.rel
       have hslot := checkNode_slot tbl f st.n t hck _ hi
       rw [hbits] at hslot
       have hspec := decodeAux_stride trie m (W.drop 8 ++ rest) (W.take 8) t pend st.out
@@ -443,6 +445,7 @@ theorem drain_sim (m : Nat) (rest : List Bool) : ∀ (fuel : Nat) (st : DState) 
         | inner id' => rw [hch] at hslot; exact hslot.elim
       | leaf s k =>
         rw [hs] at hslot hspec
+        simp only at hslot hspec
         obtain ⟨hk1, hk8⟩ := stride_leaf_bounds _ _ _ _ hs
         rw [htl] at hk8
         cases hch : childAt tbl st.n ((st.cur >>> (st.cbits - 8)) % 256) with
@@ -453,9 +456,9 @@ theorem drain_sim (m : Nat) (rest : List Bool) : ∀ (fuel : Nat) (st : DState) 
           obtain ⟨rfl, rfl⟩ := hslot
           simp only
           by_cases hm : m ≠ 0 ∧ st.out.length = m
-          · simp only [hm, and_self, ↓reduceIte] at hspec ⊢
+          · rw [if_pos hm] at hspec ⊢
             exact hspec
-          · simp only [hm, ↓reduceIte] at hspec ⊢
+          · rw [if_neg hm] at hspec ⊢
             rw [← List.append_assoc, take_drop_drop W k hk8] at hspec
             have inv' : Inv { st with out := s :: st.out, cbits := st.cbits - k, n := 0, sbits := st.cbits - k }
                 trie [] (W.drop k) :=
@@ -667,16 +670,18 @@ theorem decodeBytesMax_eq (m : Nat) (v : List Nat) (hv : ∀ b ∈ v, b < 256) :
   simp only [List.nil_append] at hf
   cases hfe : feed rootTable.tbl m { n := 0, cur := 0, cbits := 0, sbits := 0, out := [] } v with
   | error e =>
-    have : feed tbl m { n := 0, cur := 0, cbits := 0, sbits := 0, out := [] } v = .error e := hfe
+    have : feed tbl m { n := 0, cur := 0, cbits := 0, sbits := 0, out := [] } v = .error e := by rw [tbl_eq]; exact hfe
     rw [this] at hf
     simp only
     exact hf.symm
   | ok st' =>
-    have : feed tbl m { n := 0, cur := 0, cbits := 0, sbits := 0, out := [] } v = .ok st' := hfe
+    have : feed tbl m { n := 0, cur := 0, cbits := 0, sbits := 0, out := [] } v = .ok st' := by rw [tbl_eq]; exact hfe
     rw [this] at hf
     obtain ⟨t', pend', W', inv', hc', heq⟩ := hf
     simp only
     rw [heq]
-    exact tail_sim m 8 st' t' pend' W' inv' hc' hc'
+    have := tail_sim m 8 st' t' pend' W' inv' hc' hc'
+    rw [tbl_eq] at this
+    exact this
 
 end NetVerif.Proofs.Lemmas.HuffmanStride
